@@ -2738,6 +2738,10 @@ int32 parseFinished(ssl_t *ssl, int32 hsLen,
         if (!(ssl->flags & SSL_FLAGS_RESUMED))
         {
             rc = SSL_PROCESS_DATA;
+# ifdef USE_SERVER_SIDE_SSL
+            /* Client's Finished verified: the session may be resumed now */
+            matrixUpdateSession(ssl);
+# endif
         }
         else
         {
